@@ -868,6 +868,48 @@ int streamCfg(std::istream& in)
   return 0;
 }
 
+
+// independent cursor oracle for iterator histories: what must the next call return?
+struct CursorOracle
+{
+  bool fresh = true, incl = true;
+  uint64_t pos = 0, last = 0;
+  void jump(uint64_t s, bool inclusive) { fresh = true; incl = inclusive; pos = s; }
+  // returns "" if the observation is what an exact cursor returns, otherwise a description
+  std::string next(bool isErr, uint64_t v)
+  {
+    bool none = false;           // no admissible lower bound below 2^64
+    uint64_t lower;
+    if (fresh) { lower = pos; if (!incl) { if (pos == UINT64_MAX) none = true; else lower = pos + 1; } }
+    else { if (last == UINT64_MAX) none = true; lower = last + 1; }
+    if (isErr)
+      return (none || lower > 18446744073709551557ull) ? "" : "error-although-a-prime>=" + std::to_string(lower) + "-exists";
+    if (none || v < lower || !isPrimeOracle(v)) return "next-returned-" + std::to_string(v) + "-not-a-prime>=" + std::to_string(lower);
+    if (v - lower > 5000) return "next-skipped-far";   // gaps below 2^64 are < 1600
+    for (uint64_t x = lower; x < v; x++) if (isPrimeOracle(x)) return "next-skipped-prime-" + std::to_string(x);
+    fresh = false; last = v;
+    return "";
+  }
+  std::string prev(uint64_t v)
+  {
+    uint64_t upper; bool none = false;
+    if (fresh) { upper = pos; if (!incl) { if (pos == 0) none = true; else upper = pos - 1; } }
+    else { if (last == 0) none = true; else upper = last - 1; }
+    if (none) { fresh = false; last = 0; return v == 0 ? "" : "prev-returned-" + std::to_string(v) + "-expected-0"; }
+    if (v == 0)
+    {
+      for (uint64_t x = 0; x <= upper && x < 5000; x++) if (isPrimeOracle(x)) return "prev-returned-0-although-prime-" + std::to_string(x) + "-exists";
+      if (upper >= 5000) return "prev-returned-0";
+      fresh = false; last = 0; return "";
+    }
+    if (v > upper || !isPrimeOracle(v)) return "prev-returned-" + std::to_string(v) + "-not-a-prime<=" + std::to_string(upper);
+    if (upper - v > 5000) return "prev-skipped-far";
+    for (uint64_t x = v + 1; x <= upper && x != 0; x++) if (isPrimeOracle(x)) return "prev-skipped-prime-" + std::to_string(x);
+    fresh = false; last = v;
+    return "";
+  }
+};
+
 // ---------------------------------------------------------------------------
 // stream "multi": histories interleaved over several primesieve::iterator objects (C14)
 //   <idx> <iter op>      idx in 0..7; same operations and output as stream "iter"
@@ -876,6 +918,7 @@ int streamMulti(std::istream& in)
 {
   std::vector<std::unique_ptr<primesieve::iterator>> its;
   for (int i = 0; i < 8; i++) its.emplace_back(new primesieve::iterator());
+  CursorOracle orc[8];
   std::string line;
   while (std::getline(in, line))
   {
@@ -888,6 +931,7 @@ int streamMulti(std::istream& in)
     if (t[1] == "new")
     {
       it.reset(new primesieve::iterator(u64(t[2]), u64(t[3])));
+      orc[idx].jump(u64(t[2]), true);
       std::cout << idx << " new " << t[2] << " " << t[3] << " => " << iterState(*it) << "\n";
     }
     else if (t[1] == "next" || t[1] == "prev")
@@ -895,24 +939,28 @@ int streamMulti(std::istream& in)
       long n = t.size() > 2 ? atol(t[2].c_str()) : 1;
       for (long j = 0; j < n; j++)
       {
-        std::string res;
+        std::string res, bad;
         try
         {
           uint64_t v = (t[1] == "next") ? it->next_prime() : it->prev_prime();
           res = "v=" + std::to_string(v);
+          bad = (t[1] == "next") ? orc[idx].next(false, v) : orc[idx].prev(v);
         }
-        catch (const std::exception& e) { res = "v=ERR:" + errClass(e); }
-        std::cout << idx << " " << t[1] << " k=" << it->size_ << " => " << res << " " << iterState(*it) << "\n";
+        catch (const std::exception& e) { res = "v=ERR:" + errClass(e); bad = orc[idx].next(true, 0); }
+        std::cout << idx << " " << t[1] << " k=" << it->size_ << " => " << res << " " << iterState(*it)
+                  << (bad.empty() ? "" : " ORACLE-MISMATCH " + bad) << "\n";
       }
     }
     else if (t[1] == "jump")
     {
       it->jump_to(u64(t[2]), u64(t[3]));
+      orc[idx].jump(u64(t[2]), true);
       std::cout << idx << " jump " << t[2] << " " << t[3] << " => " << iterState(*it) << "\n";
     }
     else if (t[1] == "clear")
     {
       it->clear();
+      orc[idx].jump(0, true);
       std::cout << idx << " clear => " << iterState(*it) << "\n";
     }
     else { std::cerr << "bad op: " << line << "\n"; return 2; }
@@ -947,6 +995,8 @@ int streamIterC(std::istream& in)
   primesieve_iterator it;
   primesieve_init(&it);
   bool edom = false;
+  CursorOracle orc;
+  bool sticky = false;
   std::string line;
   while (std::getline(in, line))
   {
@@ -955,10 +1005,12 @@ int streamIterC(std::istream& in)
       continue;
     if (t[0] == "new")
     {
+      sticky = false;
       primesieve_free_iterator(&it);
       primesieve_init(&it);
       edom = false;
       primesieve_jump_to(&it, u64(t[1]), u64(t[2]));
+      orc = CursorOracle(); orc.jump(u64(t[1]), true);
       std::cout << "new " << t[1] << " " << t[2] << " => " << citerState(it) << " edom=0\n";
     }
     else if (t[0] == "next" || t[0] == "prev")
@@ -969,19 +1021,38 @@ int streamIterC(std::istream& in)
         errno = 0;
         uint64_t v = (t[0] == "next") ? primesieve_next_prime(&it) : primesieve_prev_prime(&it);
         if (errno == EDOM) edom = true;
+        std::string bad;
+        bool edomNow = errno == EDOM;
+        if (edomNow && !it.is_error) bad = "errno=EDOM-without-is_error";
+        else if (t[0] == "next" && (sticky || v == PRIMESIEVE_ERROR || edomNow))
+        {
+          // error contract: PRIMESIEVE_ERROR returned, is_error = 1, errno = EDOM; the first error is
+          // justified only if no further prime exists; until the next jump/skipto/clear every
+          // next_prime keeps failing
+          if (v != PRIMESIEVE_ERROR || !it.is_error || !edomNow) bad = "error-contract(value,is_error,errno)";
+          else if (!sticky) bad = orc.next(true, 0);
+          sticky = true; orc.jump(0, true);
+        }
+        else
+        {
+          bad = (t[0] == "next") ? orc.next(false, v) : orc.prev(v);
+          if (t[0] == "prev") sticky = false;      // prev_prime re-generates the buffer from position 0
+        }
         std::cout << t[0] << " k=" << it.size << " => v=" << v << " " << citerState(it) << " edom=" << (edom ? 1 : 0)
-                  << (errno == EDOM && !it.is_error ? " ORACLE-MISMATCH errno=EDOM-without-is_error" : "") << "\n";
+                  << (bad.empty() ? "" : " ORACLE-MISMATCH " + bad) << "\n";
       }
     }
     else if (t[0] == "jump" || t[0] == "skipto")
     {
       if (t[0] == "jump") primesieve_jump_to(&it, u64(t[1]), u64(t[2]));
       else primesieve_skipto(&it, u64(t[1]), u64(t[2]));
+      orc.jump(u64(t[1]), t[0] == "jump"); sticky = false;
       std::cout << t[0] << " " << t[1] << " " << t[2] << " => " << citerState(it) << " edom=" << (edom ? 1 : 0) << "\n";
     }
     else if (t[0] == "clear")
     {
       primesieve_clear(&it);
+      orc.jump(0, true); sticky = false;
       std::cout << "clear => " << citerState(it) << " edom=" << (edom ? 1 : 0) << "\n";
     }
     else { std::cerr << "bad op: " << line << "\n"; return 2; }
